@@ -5,7 +5,10 @@ Sub-checks
              (S(k=Val(v)), A.k, A.globals.k, S(v=Vars()) + A.v.x, Spec(sub, scope={..})) and readers
              (S.k, S['k'], S.globals.k, S.v.x, each wrapped as Coalesce(reader, default='<unbound>'))
              placed at every position; two names only, so shadowing is frequent; every binder binds a
-             unique value; each spec evaluated twice, with and without a caller scope
+             unique value; each spec evaluated twice, with and without a caller scope; a share of the programs is run
+             through Glommer().glom(target, spec, scope=...) as well (same expectations);
+             a scope name d bound to a fresh dict, written through A.d[<T expr / Spec over the step's target>] and
+             read back (the index of an A path is an argument like any other: it is evaluated on the target)
   matchdict  Match-dict keys that bind (Regex named groups, A.k) with several entries, optionally below
              an outer binding of the same name
   ref        Ref definitions / uses: nearest enclosing definition, recursion over trees, no leak
@@ -17,14 +20,16 @@ from hypothesis import strategies as st
 
 import glom
 from glom import Iter
-from glom import (T, S, A, Val, Coalesce, Pipe, Spec, Vars, Ref, Match, Auto, Switch, And, Or, M, Regex, GlomError)
+from glom import (T, S, A, Val, Coalesce, Pipe, Spec, Vars, Ref, Match, Auto, Switch, And, Or, M, Regex, GlomError, Invoke)
 
-from ..runner import Sub, Mismatch
+from ..runner import Sub, Mismatch, HarnessBug
 from .. import targets as tg
 
 PROPERTY = 'C07'
 RULE = ('scope: trees of depth <= 4 over chains and branching containers with binders/readers of the names k, j (plus a Vars '
         'object v and the globals namespace) at every position; failing leaves make Coalesce/Or/Switch pass over branches. '
+        'A third of the programs also run through Glommer().glom(.., scope=..); chains that bind d to a fresh dict, write '
+        'A.d[<T expr / Spec over a known target>] and read the dict back. '
         'Non-trivial = >= 1 binder and >= 1 reader in different subtrees (visibility is decided by a rule, not adjacency).')
 ASSUMPTIONS = [
     'refscope: a chain step sees the bindings made *directly* by earlier steps of the same chain; nested specs see their '
@@ -32,6 +37,12 @@ ASSUMPTIONS = [
     'Switch / Match-dict value additionally sees the direct bindings of its own key',
     'Spec(x, scope=...) and Ref definitions are generated wrapped in a 1-tuple when they are chain steps (their visibility to later steps is not asserted either way)',
     'binders nested inside a compound Switch/Match key are invisible to the value',
+    'Glommer().glom(target, spec, scope=m) is held to the expectations of glom(target, spec, scope=m) (Glommer docstring: the same '
+    'function with a registry of its own); neither m nor the Glommer\'s own scope may change',
+    'A.d[x] with d bound to a dict stores the step\'s target under the VALUE of x evaluated on that target when x is a T expression / '
+    'Spec (arguments of T steps are specs in argument mode, whatever their position), under x itself when x is a plain constant; '
+    'when d is unbound or x fails nothing is written. The dict is an ordinary object reached through the scope: writes made in a '
+    'branch that fails afterwards stay (as for Vars). Keys are strings by construction (an unhashable key would be a harness error)',
 ]
 UNB = '<unbound>'
 
@@ -39,6 +50,44 @@ UNB = '<unbound>'
 class RVars(object):
     def __init__(self):
         self.d = {}
+
+
+class RDict(dict):
+    """reference counterpart of the fresh dict bound by S(d=Invoke(dict)); remembers which keys were computed"""
+    def __init__(self):
+        dict.__init__(self)
+        self.computed = set()
+
+
+def typename(t):
+    return type(t).__name__
+
+
+# forms of the last index of A.d[...]:  form -> (spec-level index, needs evaluation)
+DKEY_FORMS = {
+    't': lambda c: T,                           # the target itself
+    't0': lambda c: T[0],                       # first item of the target
+    'tf0': lambda c: T['f0'],                   # field f0 of the target
+    'spec-t': lambda c: Spec(T),
+    'spec-type': lambda c: Spec(typename),      # total: the name of the target's type
+    'spec-val': lambda c: Spec(Val(c)),
+    'const': lambda c: c,                       # control: a plain constant is the key as it stands
+}
+DKEY_TOTAL = ['spec-type', 'spec-val', 'const']          # usable on any target (the key is always a string)
+
+
+def dkey_value(form, c, target):
+    """plain-Python meaning of the index expression on `target`; Fail when the expression cannot be evaluated"""
+    if form in ('const', 'spec-val'):
+        return c
+    if form == 'spec-type':
+        return typename(target)
+    if form in ('t', 'spec-t'):
+        return target
+    try:
+        return target[0] if form == 't0' else target['f0']
+    except (LookupError, TypeError):
+        raise Fail()
 
 
 class Fail(Exception):
@@ -53,8 +102,9 @@ NAMES = ['k', 'j']
 
 def gen_node(draw, d, is_list, counter):
     S_ = st.sampled_from
-    leafs = ['bind', 'abind', 'read', 'read', 'readitem', 'gbind', 'gread', 'id', 'vbind', 'vset', 'vread', 'const']
-    comps = ['tuple', 'tuple', 'pipe', 'dict', 'coal', 'or', 'and', 'switch', 'specscope', 'varschain', 'lazy']
+    leafs = ['bind', 'abind', 'read', 'read', 'readitem', 'gbind', 'gread', 'id', 'vbind', 'vset', 'vread', 'const',
+             'dnew', 'dset', 'dread']
+    comps = ['tuple', 'tuple', 'pipe', 'dict', 'coal', 'or', 'and', 'switch', 'specscope', 'varschain', 'lazy', 'dictchain']
     if is_list:
         comps.append('list')
     kind = draw(S_(leafs if d <= 0 else leafs + comps + comps))
@@ -66,8 +116,11 @@ def gen_node(draw, d, is_list, counter):
         return [kind, name]
     if kind in ('vset', 'vread'):
         return [kind, draw(S_(['x', 'y']))]
-    if kind in ('id', 'vbind'):
+    if kind in ('id', 'vbind', 'dnew', 'dread'):
         return [kind]
+    if kind == 'dset':
+        # anywhere in a tree the target is not known: only the index forms that are total
+        return ['dset', draw(S_(DKEY_TOTAL)), draw(S_(['ka', 'kb']))]
     if kind == 'const':
         counter[0] += 1
         return ['const', 'c%d' % counter[0]]
@@ -113,6 +166,28 @@ def gen_node(draw, d, is_list, counter):
             return ['tuple', steps]
         # the first read is kept in the result: {'f0': read, 'f1': (write, read)} below one Vars binding
         return ['tuple', [['vbind'], ['dict', [['vread', a], ['tuple', steps[2:]]]]]]
+    if kind == 'dictchain':
+        # d bound to a fresh dict, then (a known target, A.d[<index computed from that target>]) once or twice, then read back.
+        # The write sits directly in the chain, in a dict value, or in a Coalesce branch that fails after the write.
+        steps = [['dnew']]
+        if draw(st.integers(0, 2)) == 0:
+            steps.append(gen_node(draw, d - 1, is_list, counter))
+        for _ in range(draw(S_([1, 1, 2]))):
+            form = draw(S_(['t', 't0', 'tf0', 'spec-t', 't', 't0', 'tf0', 'spec-t', 'spec-type', 'spec-val', 'const']))
+            counter[0] += 1
+            known = ['const', 'c%d' % counter[0]]
+            if form == 'tf0':
+                known = ['dict', [known]]                    # target {'f0': 'cN'}
+            pair = [known, ['dset', form, draw(S_(['ka', 'kb']))]]
+            place = draw(S_(['chain', 'chain', 'dict', 'failed-branch']))
+            if place == 'chain':
+                steps.extend(pair)
+            elif place == 'dict':
+                steps.append(['dict', [['tuple', pair], ['dread']]])
+            else:
+                steps.append(['coal', [['fail', ['tuple', pair]], ['id']]])
+        steps.append(['dread'])
+        return [draw(S_(['tuple', 'pipe'])), steps]
     if kind == 'specscope':
         counter[0] += 1
         return ['specscope', {name: 'v%d' % counter[0]}, gen_node(draw, d - 1, is_list, counter)]
@@ -122,7 +197,9 @@ def gen_node(draw, d, is_list, counter):
 def gen(draw):
     counter = [0]
     return {'tree': gen_node(draw, draw(st.sampled_from([2, 3, 3, 4])), True, counter),
-            'caller': draw(st.sampled_from([None, {'k': 'caller-k'}, {'k': 'caller-k', 'j': 'caller-j'}]))}
+            'caller': draw(st.sampled_from([None, {'k': 'caller-k'}, {'k': 'caller-k', 'j': 'caller-j'}])),
+            # also run the program through a Glommer of its own: Glommer().glom(target, spec, scope=caller)
+            'glommer': draw(st.integers(0, 2)) == 2}
 
 
 # ---------------------------------------------------------------------------
@@ -148,6 +225,12 @@ def build(r, in_chain=False):
         return Coalesce(getattr(A.v, r[1]), default=T)
     if k == 'vread':
         return Coalesce(getattr(S.v, r[1]), default=UNB)
+    if k == 'dnew':
+        return S(d=Invoke(dict))                 # a fresh dict per evaluation
+    if k == 'dset':
+        return Coalesce(A.d[DKEY_FORMS[r[1]](r[2])], default=T)
+    if k == 'dread':
+        return Coalesce((S.d, dict), default=UNB)      # a copy: what the dict holds at this moment
     if k == 'id':
         return T
     if k == 'const':
@@ -229,6 +312,30 @@ def ev(r, target, env, state):
         if isinstance(v, RVars):
             return v.d.get(r[1], UNB), {}
         return UNB, {}
+    if k == 'dnew':
+        return target, {'d': RDict()}
+    if k == 'dset':
+        dd = env.get('d')
+        if isinstance(dd, RDict):
+            try:
+                key = dkey_value(r[1], r[2], target)
+            except Fail:
+                return target, {}                # Coalesce(A.d[...], default=T): nothing written
+            try:
+                hash(key)
+            except TypeError:
+                raise HarnessBug('C07 generator: A.d[%s] on target %r gives an unhashable key' % (r[1], target))
+            dd[key] = target
+            if r[1] != 'const':
+                dd.computed.add(key)
+        return target, {}
+    if k == 'dread':
+        dd = env.get('d')
+        if isinstance(dd, RDict):
+            if any(key in dd.computed for key in dd):
+                state['computed_read_back'] = True
+            return dict(dd), {}
+        return UNB, {}
     if k == 'id':
         return target, {}
     if k == 'const':
@@ -286,9 +393,9 @@ def ev(r, target, env, state):
 
 def leaves(r, acc):
     k = r[0]
-    if k in ('bind', 'abind', 'gbind', 'vbind', 'vset', 'specscope'):
+    if k in ('bind', 'abind', 'gbind', 'vbind', 'vset', 'specscope', 'dnew', 'dset'):
         acc['binders'] += 1
-    if k in ('read', 'readitem', 'gread', 'vread'):
+    if k in ('read', 'readitem', 'gread', 'vread', 'dread'):
         acc['readers'] += 1
     for x in r[1:]:
         if isinstance(x, list):
@@ -326,31 +433,53 @@ def check(recipe, ctx):
         ctx.label('lazy-iter')
     spec = build(tree)
     where = 'spec=%r caller scope=%r' % (spec, recipe['caller'])
-    for rep in range(2):
-        target = [1, 2]
-        caller = dict(recipe['caller']) if recipe['caller'] else None
-        snap = dict(caller) if caller is not None else None
-        state = {'glob': {}}
-        try:
-            exp = ('ok', canon(ev(tree, target, dict(caller or {}), state)[0]))
-        except Fail:
-            exp = ('fail',)
-        try:
-            kw = {'scope': caller} if caller is not None else {}
-            got = ('ok', canon(glom.glom(target, spec, **kw)))
-        except GlomError as e:
-            got = ('fail', type(e).__name__)
-        except Exception as e:
-            raise Mismatch('unexpected-exception', '%s: %s: %r' % (where, type(e).__name__, e))
-        ctx.label('exp-' + exp[0])
-        if exp[0] != got[0]:
-            raise Mismatch('outcome', '%s (evaluation #%d): expected %r, got %r' % (where, rep + 1, exp, got))
-        if exp[0] == 'ok' and exp[1] != got[1]:
-            kind = 'visibility' if rep == 0 else 'outlives-call'
-            raise Mismatch(kind, '%s (evaluation #%d of the same spec object): expected %r, got %r'
-                           % (where, rep + 1, exp[1], got[1]))
-        if caller is not None and (caller != snap or list(caller) != list(snap)):
-            raise Mismatch('caller-scope-modified', '%s: caller mapping is now %r' % (where, caller))
+    vias = ['glom']
+    if recipe.get('glommer'):
+        # "Values passed via scope= are readable through S" holds for the method of a Glommer as for the function
+        vias.append('glommer')
+        ctx.label('glommer-with-scope' if recipe['caller'] else 'glommer-no-scope')
+    for via in vias:
+        pre = '' if via == 'glom' else 'glommer-'
+        glommer = gl_before = None
+        if via == 'glommer':
+            glommer = glom.Glommer()
+            gl_before = list(glommer.scope.items())
+        for rep in range(2):
+            target = [1, 2]
+            caller = dict(recipe['caller']) if recipe['caller'] else None
+            snap = dict(caller) if caller is not None else None
+            state = {'glob': {}}
+            try:
+                exp = ('ok', canon(ev(tree, target, dict(caller or {}), state)[0]))
+            except Fail:
+                exp = ('fail',)
+            if via == 'glom':
+                if rep == 0 and state.get('computed_read_back'):
+                    ctx.label('a-index-computed-read-back')
+                how = where
+            else:
+                how = 'Glommer().glom(target, spec, scope=...): ' + where
+            try:
+                kw = {'scope': caller} if caller is not None else {}
+                got = ('ok', canon((glom.glom if via == 'glom' else glommer.glom)(target, spec, **kw)))
+            except GlomError as e:
+                got = ('fail', type(e).__name__)
+            except Exception as e:
+                raise Mismatch(pre + 'unexpected-exception', '%s: %s: %r' % (how, type(e).__name__, e))
+            if via == 'glom':
+                ctx.label('exp-' + exp[0])
+            if exp[0] != got[0]:
+                raise Mismatch(pre + 'outcome', '%s (evaluation #%d): expected %r, got %r' % (how, rep + 1, exp, got))
+            if exp[0] == 'ok' and exp[1] != got[1]:
+                kind = 'visibility' if rep == 0 else 'outlives-call'
+                raise Mismatch(pre + kind, '%s (evaluation #%d of the same spec object): expected %r, got %r'
+                               % (how, rep + 1, exp[1], got[1]))
+            if caller is not None and (caller != snap or list(caller) != list(snap)):
+                raise Mismatch(pre + 'caller-scope-modified', '%s: caller mapping is now %r' % (how, caller))
+            if glommer is not None:
+                now = list(glommer.scope.items())
+                if len(now) != len(gl_before) or any(a[0] is not b[0] or a[1] is not b[1] for a, b in zip(now, gl_before)):
+                    raise Mismatch('glommer-scope-modified', '%s: the Glommer\'s own scope changed from %r to %r' % (how, gl_before, now))
     # the method form: Spec(spec, scope=base).glom(target, scope=per_call) - per-call values override the Spec's own,
     # and neither mapping nor the Spec object may remember anything from one call to the next
     base = {'k': 'spec-k'}
@@ -533,7 +662,8 @@ def check_ref(recipe, ctx):
 
 
 SUBS = [
-    Sub('scope', check, gen=gen, quick=5000, thorough=20000, floors={'caller-scope': 0.3, 'exp-ok': 0.5, 'lazy-iter': 0.05}),
+    Sub('scope', check, gen=gen, quick=5000, thorough=20000, floors={'caller-scope': 0.3, 'exp-ok': 0.5, 'lazy-iter': 0.05,
+                'glommer-with-scope': 0.07, 'a-index-computed-read-back': 0.05}),
     Sub('matchdict', check_matchdict, gen=gen_matchdict, quick=800, thorough=3000),
     Sub('ref', check_ref, gen=gen_ref, quick=600, thorough=2500),
 ]
